@@ -468,6 +468,16 @@ func (c *candidateBase) writeTo(raw []byte, dst Candidate) (int, error) {
 		if errors.Is(err, io.ErrClosedPipe) {
 			return n, err
 		}
+		// A write that fails because the candidate's I/O has been aborted
+		// (Close, Restart, Failed) failed for good: sockets report that as
+		// net.ErrClosed or as an expired deadline, not as io.ErrClosedPipe.
+		if c.closeCh != nil {
+			select {
+			case <-c.closeCh:
+				return n, fmt.Errorf("%w: %w", io.ErrClosedPipe, err)
+			default:
+			}
+		}
 		c.agent().log.Infof("Failed to send packet: %v", err)
 
 		return n, nil
